@@ -61,6 +61,8 @@ func main() {
 			genDloop(seed, n, os.Args[5])
 		case "enum", "denum":
 			genEnum(os.Args[2], n, os.Args[5])
+		case "enum2":
+			genEnum2(n, os.Args[5])
 		case "types":
 			genTypes(os.Args[5])
 		case "tproc":
@@ -347,6 +349,12 @@ func (l *loopSys) apply(f []string) (out string) {
 		if w := l.sut.proxy.WatchedResources[url]; w != nil {
 			w.AlwaysRespond = true
 		}
+	case "other":
+		// a request of ANOTHER type on the same stream, handled by the real ShouldRespond (a new CDS watch marks EDS
+		// through the real NewWatchedResource)
+		_, _ = xds.ShouldRespond(l.sut.proxy, "verif", &discovery.DiscoveryRequest{
+			TypeUrl: typeURL[f[1]], ResourceNames: wire.DecList(f[2]), ResponseNonce: wire.Dec(f[3]),
+		})
 	default:
 		return "bad-op"
 	}
@@ -387,7 +395,15 @@ func genLoop(seed uint64, n int, outp string) {
 			case 8:
 				out.Line("spush", wire.Enc(nonce()))
 			default:
-				out.Line("always")
+				if r.Chance(1, 2) {
+					out.Line("always")
+				} else {
+					// several types on the stream: another type's request (for EDS mostly the CDS request that marks it)
+					t2 := wire.Pick(r, []string{"CDS", "CDS", "LDS", "RDS", "EDS", "SDS"})
+					if t2 != ty {
+						out.Line("other", t2, wire.EncList(genNames(r, true)), wire.Enc(wire.Pick(r, []string{"", "old", "n1"})))
+					}
+				}
 			}
 		}
 		// drain to quiescence so that the quiescent clause is exercised
@@ -816,4 +832,5 @@ func oracle(stream, in, outp string) {
 		}
 	}
 	flush()
+	dumpStats(outp)
 }
